@@ -11,6 +11,7 @@ from __future__ import annotations
 import ast
 
 from ..common import REPO
+from ..guard import table
 from ..lean import lean_string
 
 GEN_NAME = "GraphqlTables"
@@ -110,26 +111,26 @@ def _pairs(xs) -> str:
 
 
 def generate() -> str:
-    table, dflt = scalar_table()
-    support, mapper = parse_raw_tables()
+    table_, dflt = table(scalar_table, ({}, "?"))
+    support, mapper = table(parse_raw_tables, ([], []))
     out = ["namespace Dcg.Gen.GraphqlTables", ""]
     out.append("/-- model/scalar.py DEFAULT_GRAPHQL_SCALAR_TYPES (GraphQL scalar name, Python type) -/")
-    out.append(f"def defaultScalarTypes : List (String × String) :=\n  {_pairs(table.items())}\n")
+    out.append(f"def defaultScalarTypes : List (String × String) :=\n  {_pairs(table_.items())}\n")
     out.append("/-- model/scalar.py DEFAULT_GRAPHQL_SCALAR_TYPE: every scalar not in the table -/")
     out.append(f"def defaultScalarType : String := {lean_string(dflt)}\n")
     out.append("/-- graphql-core: specified_scalar_types (environment) -/")
-    out.append(f"def builtinScalars : List String := {_strs(builtin_scalars())}\n")
+    out.append(f"def builtinScalars : List String := {_strs(table(builtin_scalars, []))}\n")
     out.append("/-- graphql-core: the TypeKind members a named type can have (environment) -/")
-    out.append(f"def namedTypeKinds : List String := {_strs(named_kinds())}\n")
+    out.append(f"def namedTypeKinds : List String := {_strs(table(named_kinds, []))}\n")
     out.append("/-- GraphQLParser.parse_order (render order of the kinds) -/")
-    out.append(f"def parseOrder : List String := {_strs(parse_order())}\n")
+    out.append(f"def parseOrder : List String := {_strs(table(parse_order, []))}\n")
     out.append("/-- keys of self.support_graphql_types in parse_raw -/")
     out.append(f"def supportKinds : List String := {_strs(support)}\n")
     out.append("/-- mapper_from_graphql_type_to_parser_method in parse_raw (kind, method) -/")
     out.append(f"def kindMethods : List (String × String) := {_pairs(mapper)}\n")
     out.append("/-- keyword arguments of the field built by _typename_field(NAME) -/")
-    out.append(f"def typenameField : List (String × String) :=\n  {_pairs(typename_field().items())}\n")
+    out.append(f"def typenameField : List (String × String) :=\n  {_pairs(table(typename_field, {}).items())}\n")
     out.append("/-- type names _resolve_types skips -/")
-    out.append(f"def skippedTypeNames : List String := {_strs(skipped_names())}\n")
+    out.append(f"def skippedTypeNames : List String := {_strs(table(skipped_names, []))}\n")
     out.append("end Dcg.Gen.GraphqlTables")
     return "\n".join(out) + "\n"
